@@ -48,6 +48,9 @@ inductive Expect where
   | both (names : List Str) (conds : List Str) (why : String)
   /-- Allow-listed shape (delegation, unknown decode, …) with a stated reason. -/
   | allow (reason : String)
+  /-- The decoder delegates the bytes to the decoder of an embedded/inner type (which validates that
+      part) and then re-validates the whole through the named constructor(s) before assigning. -/
+  | delegateThenCtor (names : List Str)
   /-- KNOWN GAP, reported as a candidate finding: DTO data reaches the receiver with no validation
       although the type's constructor does validate.  Accepted only for a fact that indeed has no
       calls and no checks (so that a later fix in /repo breaks the proof and the entry is revisited). -/
@@ -74,6 +77,8 @@ def factOk (e : Expect) (f : Fact) : Bool :=
   | .both names conds _ =>
       stdDecode f && !names.isEmpty && !conds.isEmpty && subset names f.calls && subset conds f.checks && f.assigns ≥ 1
   | .allow _ => true
+  | .delegateThenCtor names =>
+      f.delegates != [] && f.dto == [] && !names.isEmpty && subset names f.calls && !f.assignsDtoDirect && f.assigns ≥ 1
   | .unvalidated _ => stdDecode f && f.calls.isEmpty && f.checks.isEmpty && f.assignsDtoDirect
   | .nullPanics e => factOk e f
 
@@ -153,7 +158,7 @@ def expectations : Expectations := [
   (cps!"pkg/base/nt/num", cps!"Int", .nullPanics <| .checks [cps!"dto.Int == nil"] "same guard as Z().FromIntCT-style constructors (nil); the numct.Int field is validated by its own decoder"),
   (cps!"pkg/base/nt/num", cps!"Nat", .nullPanics <| .checks [cps!"dto.Nat == nil"] "same guard as N().FromNatCT (nil); the numct.Nat field is validated by its own decoder"),
   (cps!"pkg/base/nt/num", cps!"NatPlus",
-    .nullPanics <| .checks [cps!"dto.NatPlus.IsZero() == ct.True"]
+    .nullPanics <| .checks [cps!"dto.NatPlus == nil", cps!"dto.NatPlus.IsZero() == ct.True"]
       "NPlus().FromNatCT checks nil and zero; the decoder checks zero only and calls IsZero on a possibly nil field: a map without \"natPlus\" panics (see nullDtoUnguarded / report)"),
   (cps!"pkg/base/nt/num", cps!"Rat", .nullPanics <| .checks [cps!"dto.A == nil", cps!"dto.B == nil"] "same guards as Q().New (both components non-nil); components validated by their own decoders (NatPlus: non-zero denominator)"),
   (cps!"pkg/base/nt/num", cps!"Uint", .nullPanics <| .checks [cps!"dto.Modulus == nil", cps!"dto.Value == nil", cps!"lt, _, _ := dto.Value.Compare(dto.Modulus.Nat()); lt == ct.False"] "same guards as NewUintGivenModulus: non-nil, value < modulus"),
@@ -254,6 +259,8 @@ def expectations : Expectations := [
   -- pkg/mpc/signatures/ecdsa/lindell17
   (cps!"pkg/mpc/signatures/ecdsa/lindell17", cps!"AuxiliaryInfo", .ctor [cps!"NewAuxiliaryInfo"]),
   (cps!"pkg/mpc/signatures/ecdsa/lindell17", cps!"Shard", .ctor [cps!"NewShard"]),
+  -- pkg/mpc/signatures/schnorr
+  (cps!"pkg/mpc/signatures/schnorr", cps!"Shard", .delegateThenCtor [cps!"NewShard"]),
   -- pkg/proofs/cggmp21/affg
   (cps!"pkg/proofs/cggmp21/affg", cps!"Commitment", .ctor [cps!"NewCommitment"]),
   (cps!"pkg/proofs/cggmp21/affg", cps!"Response", .ctor [cps!"NewResponse"]),
@@ -306,7 +313,7 @@ def expectations : Expectations := [
   (cps!"pkg/signatures/bls", cps!"Signature", .nullPanics <| .ctor [cps!"NewSignature"]),
   -- pkg/signatures/ecdsa
   (cps!"pkg/signatures/ecdsa", cps!"PublicKey", .nullPanics <| .ctor [cps!"NewPublicKey"]),
-  (cps!"pkg/signatures/ecdsa", cps!"Signature", .nullPanics <| .ctor [cps!"NewSignature"]),
+  (cps!"pkg/signatures/ecdsa", cps!"Signature", .ctor [cps!"NewSignature"]),
   -- pkg/signatures/schnorrlike
   (cps!"pkg/signatures/schnorrlike", cps!"PublicKey", .nullPanics <| .ctor [cps!"NewPublicKey"])
 ]
@@ -334,7 +341,7 @@ theorem table_size : BronVerif.Gen.UnmarshalFacts.table.length = expectations.le
 /-- Exactly one decoder is accepted as a known unvalidated gap. -/
 theorem unvalidated_count : unvalidated.length = 1 := by decide +kernel
 
-theorem nullPanicking_count : nullPanicking.length = 67 := by decide +kernel
+theorem nullPanicking_count : nullPanicking.length = 66 := by decide +kernel
 
 /-! ### Non-vacuity: the checker rejects mutated facts and misaligned tables -/
 
